@@ -107,6 +107,15 @@ pub fn build_name() -> &'static str {
         "unknown"
     }
 }
+/// Build label of the reports: the feature combination, with an `n` appended when the repository crates are
+/// compiled without their `std` feature (the `no_std` family of the lite binary).
+pub fn build_label() -> &'static str {
+    if cfg!(feature = "std") {
+        build_name()
+    } else {
+        Box::leak(format!("{}n", build_name()).into_boxed_str())
+    }
+}
 #[derive(Clone, Copy, PartialEq, Eq, Debug)]
 pub enum HashKind {
     Keccak,
